@@ -26,7 +26,7 @@ func (errInvalid) Error() string { return "invalid" }
 
 func init() {
 	props["C10"] = func(c *Ctx) {
-		c.Res.Rule = "per codec: all uint16 exhaustively, boundary+random uint32/uint64; times from year 1 to 2200 incl. -1, 0, 2^32-1, 2^32; IPs of every length 0..20 incl. v4-mapped; every prefix length 0..128 x random addresses, 4-byte, short and non-contiguous masks; strings/octets 0..300; vendor ids x payloads 0..260; TLV values 0..260; every decoder on byte strings of every length 0..40 plus random up to 300; each encoder result is decoded by the implementation itself (round trip) and size-checked. non-trivial = accepted by the encoder or reaching a decoder's content checks"
+		c.Res.Rule = "per codec: all uint16 exhaustively, boundary+random uint32/uint64; times from year 1 to 2200 incl. -1, 0, 2^32-1, 2^32; IPs of every length 0..20 incl. v4-mapped; every prefix length 0..128 x random, IPv4-mapped, IPv4-compatible, zero, all-ones addresses, 4-byte, short and non-contiguous masks; strings/octets 0..300; vendor ids x payloads 0..260; TLV values 0..260; every decoder on byte strings of every length 0..40 plus random up to 300; each encoder result is decoded by the implementation itself (round trip) and size-checked. non-trivial = accepted by the encoder or reaching a decoder's content checks"
 		r := c.Rng.Fork()
 		one := func(name string, bs [][]byte, zs []string, t *Toks, tag string) {
 			c.Add(T(Req{Name: name, Bs: bs, Zs: zs}, t, tag))
@@ -292,6 +292,15 @@ func init() {
 		for ones := 0; ones <= 128; ones++ {
 			for k := 0; k < c.N(3, 40); k++ {
 				ip := r.Bytes(16)
+				// addresses with structure of their own: IPv4-mapped, IPv4-compatible, all zero, all ones, loopback
+				switch r.Intn(7) {
+				case 0:
+					copy(ip, []byte{0, 0, 0, 0, 0, 0, 0, 0, 0, 0, 0xff, 0xff})
+				case 1:
+					copy(ip, make([]byte, 12))
+				case 2:
+					ip = [][]byte{make([]byte, 16), bytes.Repeat([]byte{0xff}, 16), append(make([]byte, 15), 1)}[r.Intn(3)]
+				}
 				mask := []byte(net.CIDRMask(ones, 128))
 				tag := "newprefix-ok"
 				switch r.Intn(9) {
